@@ -231,6 +231,12 @@ class LGen:
         for (s, e) in spans:
             evs.append([s * step, e * step, self.next_ev])
             self.next_ev += 1
+        if r.random() < 0.15:
+            # an instantaneous event (start == end: a marker): it covers no instant, so no bounded and
+            # no open-ended slice may report it
+            x = r.randrange(lo // step, hi // step) * step
+            evs.append([x, x, self.next_ev])
+            self.next_ev += 1
         r.shuffle(evs)
         return dict(op="stored", evs=evs)
 
